@@ -26,10 +26,16 @@ func runHist(c *hx.Ctx, h hist, seq int, g opGen) {
 	dir := filepath.Join(c.OutDir, "wallets")
 	os.MkdirAll(dir, 0o755)
 	r := &runner{c: c, base: filepath.Join(dir, fmt.Sprintf("w%d", seq)), bySer: map[string]int{}, multi: h.Multi}
+	for _, o := range h.Ops {
+		if o.Kind == "block" {
+			r.sf = true
+		}
+	}
+	r.sf = r.sf || h.SaveFail
 	defer func() {
 		for _, w := range r.ws {
-			os.Remove(w.path)
 			os.Remove(w.path + "~")
+			os.Remove(w.path)
 		}
 	}()
 	r.openWallet(prm(h.Prm))
@@ -47,6 +53,7 @@ func runHist(c *hx.Ctx, h hist, seq int, g opGen) {
 	stepFailed := false
 	do := func(o opRec) {
 		h.Ops = append(h.Ops, o)
+		r.h = h
 		r.step(o)
 		if h.Multi && r.stepOracle(h) {
 			stepFailed = true
@@ -67,6 +74,10 @@ func runHist(c *hx.Ctx, h hist, seq int, g opGen) {
 		}
 	})
 	r.h = h
+	for _, w := range r.ws { // saves are unblocked before the final observation
+		os.Remove(w.path + "~")
+	}
+	r.blocked = false
 	if panicked {
 		c.Fail("panic", "a wallet operation panicked", h, msg, "error value")
 		return
@@ -141,7 +152,11 @@ func runHist(c *hx.Ctx, h hist, seq int, g opGen) {
 		return hx.CoqList(o)
 	}
 	var term string
-	if h.Multi {
+	if r.sf && !h.Multi {
+		term = fmt.Sprintf("CHistF %s\n  %s\n  %s\n  %s %s\n  %s %s %s %s\n  %s %s\n  %s\n  %s\n  %s %s",
+			coqScrypt(prm(h.Prm)), hx.CoqList(r.coqOps), hx.CoqList(r.coqRes), single[0], hx.CoqBool(!r.callerBad),
+			qs(r.pwds), qs(addrs), qs(r.labels), qs(r.olabels), single[1], single[2], single[3], single[4], single[5], single[6])
+	} else if h.Multi {
 		mops := append([]string{"Open " + coqScrypt(prm(h.Prm))}, r.coqOps...)
 		mres := append([]string{"Ok"}, r.coqRes...)
 		term = fmt.Sprintf("CMulti %s\n  %s\n  %s\n  %s %s %s %s\n  %s", hx.CoqList(mops), hx.CoqList(mres), hx.CoqBool(!r.callerBad),
@@ -176,9 +191,12 @@ func runHist(c *hx.Ctx, h hist, seq int, g opGen) {
 // client before and after re-opening the file, and the file. It returns the tracked addresses.
 func (r *runner) finalOracle(h hist, wi int, pre, post obs, cli2 *account.ClientImpl, already bool) []string {
 	c := r.c
-	oracleFailed := already
+	oracleFailed := already || r.oracleFailed
 	class := func(generic string) string {
 		oracleFailed = true
+		if generic == "reload:account-set-differs" && r.sawSaveFail {
+			return "rollback:lost-account-after-reload"
+		}
 		return generic
 	}
 	in := map[string]interface{}{"history": h, "wallet": wi}
